@@ -468,7 +468,7 @@ func (doc *T) derefRequestBody(r RequestBody, refNameResolver RefNameResolver, p
 func (doc *T) derefPaths(paths map[string]*PathItem, refNameResolver RefNameResolver, parentIsExternal bool) {
 	for _, name := range componentNames(paths) {
 		ops := paths[name]
-		pathIsExternal := isExternalRef(ops.Ref, parentIsExternal)
+		pathIsExternal := parentIsExternal || isExternalRef(ops.Ref, parentIsExternal) // an inline path item inside external content is external content too
 		// inline full operations
 		ops.Ref = ""
 
@@ -505,6 +505,25 @@ func (doc *T) derefPaths(paths map[string]*PathItem, refNameResolver RefNameReso
 	}
 }
 
+// externalFirst orders component names so that components that are references to other documents come first (each
+// group keeps its order). Such a component must be internalised as external content, with the references local to
+// its own file rewritten, before a root-internal alias of it is followed: whoever reaches the object first decides
+// how its nested references are read.
+func externalFirst(names []string, isExternal func(name string) bool) []string {
+	ordered := make([]string, 0, len(names))
+	for _, n := range names {
+		if isExternal(n) {
+			ordered = append(ordered, n)
+		}
+	}
+	for _, n := range names {
+		if !isExternal(n) {
+			ordered = append(ordered, n)
+		}
+	}
+	return ordered
+}
+
 // InternalizeRefs removes all references to external files from the spec and moves them
 // to the components section.
 //
@@ -524,7 +543,7 @@ func (doc *T) InternalizeRefs(ctx context.Context, refNameResolver func(*T, Comp
 	}
 
 	if components := doc.Components; components != nil {
-		for _, name := range componentNames(components.Schemas) {
+		for _, name := range externalFirst(componentNames(components.Schemas), func(n string) bool { c := components.Schemas[n]; return c != nil && isExternalRef(c.Ref, false) }) {
 			schema := components.Schemas[name]
 			isExternal := doc.addSchemaToSpec(schema, refNameResolver, false)
 			if schema != nil {
@@ -532,7 +551,7 @@ func (doc *T) InternalizeRefs(ctx context.Context, refNameResolver func(*T, Comp
 				doc.derefSchema(schema.Value, refNameResolver, isExternal)
 			}
 		}
-		for _, name := range componentNames(components.Parameters) {
+		for _, name := range externalFirst(componentNames(components.Parameters), func(n string) bool { c := components.Parameters[n]; return c != nil && isExternalRef(c.Ref, false) }) {
 			p := components.Parameters[name]
 			isExternal := doc.addParameterToSpec(p, refNameResolver, false)
 			if p != nil && p.Value != nil {
@@ -546,7 +565,7 @@ func (doc *T) InternalizeRefs(ctx context.Context, refNameResolver func(*T, Comp
 				h.Ref = "" // always dereference the top level
 			}
 		}
-		for _, name := range componentNames(components.RequestBodies) {
+		for _, name := range externalFirst(componentNames(components.RequestBodies), func(n string) bool { c := components.RequestBodies[n]; return c != nil && isExternalRef(c.Ref, false) }) {
 			req := components.RequestBodies[name]
 			isExternal := doc.addRequestBodyToSpec(req, refNameResolver, false)
 			if req != nil && req.Value != nil {
@@ -580,7 +599,7 @@ func (doc *T) InternalizeRefs(ctx context.Context, refNameResolver func(*T, Comp
 			}
 		}
 
-		for _, name := range componentNames(components.Callbacks) {
+		for _, name := range externalFirst(componentNames(components.Callbacks), func(n string) bool { c := components.Callbacks[n]; return c != nil && isExternalRef(c.Ref, false) }) {
 			cb := components.Callbacks[name]
 			isExternal := doc.addCallbackToSpec(cb, refNameResolver, false)
 			if cb != nil && cb.Value != nil {
